@@ -253,6 +253,26 @@ def handle4 (op : String) (a obs : List String) : Option Verdict :=
       ("only_live_session_payloads_unaltered_in_order", subsequence recvd live),
       ("foreign_datagrams_do_not_disturb", broken || (field obs "then" == "alive" && field obs "peer_close" == "alive"))]
     pure (model, prop)
+  | "read.exact" => do
+    let how := get a 2
+    let code ← parseNat (get a 3)
+    -- `read_exact` of 10 bytes: the mapping arms of `StreamMap` on what quinn reports
+    let rd : String :=
+      if how == "complete" then "ok:0102030405060708090a"
+      else if how == "finish_mid" then "finished_early:4"
+      else match StreamMap.ofReadError (.reset (StreamMap.resetCode code)) with
+        | .reset c => s!"reset:{c}"
+        | .notConnected => "not_connected"
+        | .quicProto => "quic_proto"
+    -- what a read after the error gives is quinn's (the error is delivered once): passed through
+    let thenR := field obs "then_read"
+    let model := [s!"read_exact={rd}", s!"then_read={thenR}"]
+    let prop := check [("no_trap", !isTrap obs),
+      ("reset_code_reaches_a_reader_parked_in_read_exact",
+        !how.startsWith "reset" || field obs "read_exact" == s!"reset:{code}"),
+      ("finished_early_only_when_the_peer_finished", how != "finish_mid" || field obs "read_exact" == "finished_early:4"),
+      ("complete_data_delivered", how != "complete" || field obs "read_exact" == "ok:0102030405060708090a")]
+    pure (model, prop)
   | "finish.retry" =>
     let shown (o : Option (Except StreamMap.WriteError Unit)) : String :=
       match o with
